@@ -9,6 +9,7 @@
 mod util;
 mod variation;
 mod weighted;
+mod generation;
 mod ordering;
 mod plushy;
 mod proj;
@@ -27,6 +28,7 @@ fn main() {
     let rc = match args[0].as_str() {
         "stack-replay" => stack::replay(rest),
         "stack-trace" => stack::trace(rest),
+        "gen-trace" => generation::trace(rest),
         "ord-replay" => ordering::replay(rest),
         "ord-construct" => ordering::construct_trace(rest),
         "plushy-replay" => plushy::replay(rest),
